@@ -169,7 +169,14 @@ func runC14(run *Run, seed int64, cfg hostCfg, items []int, id string, full bool
 		run.Eval(1)
 		region := class
 		run.Cell(it.Path, it.Name, region, fmt.Sprintf("enc=%d", cfg.EncVsn), fmt.Sprintf("label=%d", len(cfg.Label)))
-		if len(got) == 0 || got.equal(want) {
+		if len(got) == 0 {
+			return
+		}
+		// Only a modification of the genuine ciphertext itself may still yield the original plaintext
+		// (a bit that does not matter). Anything that is not sealed under an installed key with the
+		// node's own label as associated data must have no effect at all, whatever plaintext it carries.
+		mustBeEmpty := class == "cleartext" || class == "foreign-key" || class == "foreign-aad" || class == "no-aad" || class == "relabel"
+		if !mustBeEmpty && got.equal(want) {
 			return
 		}
 		// a rejected stream may be answered with the generic error reply
@@ -265,13 +272,25 @@ func runC14(run *Run, seed int64, cfg hostCfg, items []int, id string, full bool
 		}
 		body := raw[hdrLen:]
 		for _, lb := range []string{"other", cfg.Label + "x", "", cfg.Label + cfg.Label} {
-			if lb == cfg.Label {
-				continue
+			if lb == cfg.Label || (cfg.Skip && lb == "") {
+				continue // identical to the genuine form
 			}
 			judge(it, "relabel", fmt.Sprintf("%q", lb), append(LabelHeader(lb), body...), want)
 		}
 		if cfg.Label != "" {
 			judge(it, "relabel", "doubled header", append(LabelHeader(cfg.Label), raw...), want)
+		}
+		// traffic of another logical cluster that shares the key: sealed with ITS label as associated data
+		if !cfg.Skip {
+			for _, lb := range []string{"other", cfg.Label + "x"} {
+				var foreign []byte
+				if it.Path == "packet" {
+					foreign = BuildPacket(PacketCfg{Label: lb, Key: v.k1, EncVsn: cfg.EncVsn, CRC: it.CRC}, it.Plain, rng)
+				} else {
+					foreign = append(LabelHeader(lb), BuildStreamMsg(StreamCfg{Label: lb, Key: v.k1, EncVsn: cfg.EncVsn}, it.Plain, rng)...)
+				}
+				judge(it, "relabel", fmt.Sprintf("sealed for label %q", lb), foreign, want)
+			}
 		}
 		// 5. foreign key, cleartext
 		if it.Path == "packet" {
@@ -279,6 +298,17 @@ func runC14(run *Run, seed int64, cfg hostCfg, items []int, id string, full bool
 			judge(it, "cleartext", "", BuildPacket(PacketCfg{Label: cfg.Label, CRC: it.CRC}, it.Plain, rng), want)
 			// sealed with another label as associated data but carrying ours
 			judge(it, "foreign-aad", "", append(LabelHeader(cfg.Label), Seal(cfg.EncVsn, v.k1, it.Plain, []byte(cfg.Label+"z"), rng)...), want)
+			if cfg.Label != "" {
+				hdr := LabelHeader(cfg.Label)
+				if cfg.Skip {
+					hdr = nil
+				}
+				pl := it.Plain
+				if it.CRC {
+					pl = AddCRC(pl)
+				}
+				judge(it, "no-aad", "sealed under an installed key but without the label as associated data", append(append([]byte(nil), hdr...), Seal(cfg.EncVsn, v.k1, pl, nil, rng)...), want)
+			}
 		} else {
 			judge(it, "foreign-key", "k3", append(LabelHeader(cfg.Label), BuildStreamMsg(StreamCfg{Label: cfg.Label, Key: k3, EncVsn: cfg.EncVsn}, it.Plain, rng)...), want)
 			judge(it, "cleartext", "", append(LabelHeader(cfg.Label), it.Plain...), want)
